@@ -49,11 +49,13 @@ def run(c, prog, ctx):
     f = prog.fn(A + "generate_asset_entropy")
     t = show(Prov(f.body).local(0), -12)
     tag = re.sub(r"@[\w]*#\d+", "", t)
-    c.inst("R1.entropy", "entropy = fmr([sha256d(prevout), contract_hash])",
-           tag == "issuance::AssetEntropy::from_midstate(%s(array{hashes::Sha256d::to_byte_array(hashes::Sha256d::from_engine(hashes::Sha256d::engine())), issuance::ContractHash::to_byte_array(arg2)}))" % FMR,
-           "returns %s" % t, f.where(), f.path)
+    ENGFORM = "issuance::AssetEntropy::from_midstate(%s(array{hashes::Sha256d::to_byte_array(hashes::Sha256d::from_engine(hashes::Sha256d::engine())), issuance::ContractHash::to_byte_array(arg2)}))" % FMR
+    # the same value through the one-shot helpers: sha256d::Hash::hash(&serialize(&prevout))
+    ONESHOT = "issuance::AssetEntropy::from_midstate(%s(array{hashes::Sha256d::to_byte_array(hashes::Sha256d::hash(encode::serialize(arg1))), issuance::ContractHash::to_byte_array(arg2)}))" % FMR
+    c.inst("R1.entropy", "entropy = fmr([sha256d(prevout), contract_hash])", tag in (ENGFORM, ONESHOT), "returns %s" % t, f.where(), f.path)
     ev = [(show(e["args"][0]), re.sub(r"@[\w]*#\d+", "", show(e["args"][1])), e["self_ty"]) for e in events(f.body, is_encode_call)]
-    c.inst("R1.entropy-prevout-hash", "the hashed value is the consensus encoding of the prevout", ev == [("arg1", "hashes::Sha256d::engine()", "transaction::OutPoint")], "encodes %s" % ev, f.where(), f.path)
+    c.inst("R1.entropy-prevout-hash", "the hashed value is the consensus encoding of the prevout",
+           (tag == ENGFORM and ev == [("arg1", "hashes::Sha256d::engine()", "transaction::OutPoint")]) or (tag == ONESHOT and not ev), "encodes %s" % ev, f.where(), f.path)
     f = prog.fn(A + "from_entropy")
     t = show(Prov(f.body).local(0), -12)
     c.inst("R1.asset-id", "asset id = fmr([entropy, ZERO32])", t == "issuance::AssetId::from_midstate(%s(array{issuance::AssetEntropy::to_byte_array(arg1), issuance::ZERO32}))" % FMR, "returns %s" % t, f.where(), f.path)
